@@ -896,7 +896,7 @@ structure ChanResult (b : Built) (pre stream : List Nat) (mj : Nat) (t : List Tk
     SeqWf.walk b.seq pre.length fuel { pc := pre.length } = .ok (pre.length + stream.length)
 
 /-- the loop section of a track ends in the drum-mode state it starts in (otherwise the replay after
-the loop-back jump is played in the other state than it was written in: D25) -/
+the loop-back jump is played in the other state than it was written in: D27) -/
 def LoopDrumOK (root : List Event) : Prop :=
   ∀ a s c, root = a ++ s :: c → s.kind = .segno →
     dAfterL (dAfterL false (a.map fun e => tItem e e)) (c.map fun e => tItem e e) =
